@@ -27,6 +27,11 @@ H  (second deepening round) InlinePass vs C05's model of the pass + the flag / m
    (`passinfra.kpass`, Model/PassKernel.lean): a world is built through C01's alphabet on the real objects
    (harness/kernel_ops.Real), the real pass runs on it, and the change of the canonical world dump is compared with the
    kernel program's; C01's invariant is evaluated on the real objects after the pass (kernel_ops.wf_oracle).
+I  (wave 5) CSE / LiftConstants / LiftSubgraphInitializers / Deduplicate(Hashed) as kernel programs (`passinfra.kpass`, pass =
+   cse | lc | lsi | dd, Model/PassKernel2.lean; stream kpass2: own history generator, Value / Node construction recorded, 1-bit
+   digest injected into the hashed pass, the data-level decisions sent as parameters); AddDefaultAttributes vs
+   Model/PassFlags4.lean with the schema table read off onnx.defs per case (`passinfra.adddef`); exhaustive small scope + oracle
+   for the conjectured linear round bound of CSE (stream cserounds).
 Every item of every stream runs under a CPU / wall-clock interval timer (`_guard`): a call of the implementation that
 does not return becomes the failure `nontermination:<stream>[:<pass>]`, never a hung check.
 """
@@ -140,6 +145,8 @@ THEOREMS = [
     "IrVerif.PassInfra.C14_fix_add_defaults",
     "IrVerif.PassInfra.C14_measure_add_defaults",
     "IrVerif.PassInfra.C14_rounds_add_defaults",
+    "IrVerif.PassInfra.C14_flag_kernel",
+    "IrVerif.PassInfra.C14_names_cse_outputs",
 ]
 ASSUMPTIONS = [
     "passes are modelled as arbitrary functions of an abstract world (identity rule, manager flag, honesty of "
@@ -171,11 +178,23 @@ ASSUMPTIONS = [
     "world (names, producers, uses, ownership flags and counters, initializer keys, node sequences, name authority) after the "
     "real pass with the world after the kernel program, on worlds built through C01's alphabet (harness/kernel_ops.Real); shapes, "
     "types and metadata are not in that world",
-    "NO theorem (oracle only, on generated models): flag honesty / fixpoint / measure of AddDefaultAttributes and of "
+    "wave 5: CSE, LiftConstants, LiftSubgraphInitializers and Deduplicate(Hashed) are kernel programs too (Model/PassKernel2.lean): "
+    "what they decide from data outside C01's world (attribute values, tensor contents / sizes / names, digests) is a PARAMETER of "
+    "the program (akey, big, tnamed, hkey, tkey) that the theorems quantify over and that this harness computes from the real "
+    "objects with its own reading of the documented rule; LiftConstants: the tensor of a `value` attribute carries no name or the "
+    "output's name (the two spellings of the program); the rename loop of LiftSubgraphInitializers has a fuel (never exhausted); "
+    "'names kept' means: a value that HAS a name keeps exactly it (Deduplicate, LiftConstants: always; CSE, "
+    "LiftSubgraphInitializers: unless the pass issued Value.name = ... for it), every initializer is registered under its name, "
+    "and CSE keeps the names of the graph outputs position by position; an unnamed value may be named by the name authority.  "
+    "AddDefaultAttributes (Model/PassFlags4.lean): flag / idempotence / measure are theorems over an arbitrary schema table (read "
+    "off the installed onnx package per case), opset imports and SEQUENCE of visited nodes with opaque value tokens (the pass adds "
+    "no graph attribute, so the sequence is the same before and after: checked).  The LINEAR round bound of CSE is a conjecture "
+    "(exhaustive on small forests + oracle modifying rounds <= nodes-1), the proved bound is cseMu+1",
+    "NO theorem (oracle only, on generated models): flag honesty / fixpoint / measure of "
     "the schema-driven optional-output removal inside RemoveUnusedNodes; use-def/ownership consistency and 'names kept' for the "
-    "passes that are not kernel programs (CSE, Inline, LiftConstants, LiftSubgraphInitializers, Deduplicate, NameFix, "
-    "TopologicalSort, AddDefaultAttributes: they create nodes / values or rename through private state, or - NameFix, "
-    "TopologicalSort - are the subject of C15 / C12); 'ordered stays ordered' for Inline and AddDefaultAttributes and for CSE / "
+    "passes that are not kernel programs (Inline, NameFix, TopologicalSort, AddDefaultAttributes: Inline clones function bodies "
+    "through private state, AddDefaultAttributes only writes node.attributes, NameFix / TopologicalSort "
+    "are the subject of C15 / C12); 'ordered stays ordered' for Inline and AddDefaultAttributes and for CSE / "
     "OutputFix on models that are ordered but not well-formed; "
     "no theorem is about serialized bytes (the theorems speak about the model value of C05's IR - structure and value "
     "identities, not names / shapes / types / metadata - resp. about every name and initializer key for NameFix, resp. about "
@@ -3749,7 +3768,7 @@ def adddef_case(part: Part, reqs: list, seed: int) -> None:
                              f"noschema={any(v is None for v in table.values())}")
 
 
-def cserounds_exhaustive(part: Part, n: int) -> None:
+def cserounds_exhaustive(part: Part, n, chunk: int = 0, chunks: int = 1) -> None:
     """Exhaustive small scope for the linear round bound of CSE (conjecture, no theorem): every ordered forest of `n`
     one-output Identity / Relu nodes over one graph input (node i reads the input or the output of an earlier node), every
     non-empty set of node outputs as graph outputs: the number of modifying rounds is at most n - 1."""
@@ -3758,8 +3777,12 @@ def cserounds_exhaustive(part: Part, n: int) -> None:
     import onnx_ir as ir
     import onnx_ir.passes.common as cp
 
+    if isinstance(n, (tuple, list)):
+        n, chunk, chunks = n
     worst = 0
-    for parents in itertools.product(*[range(i + 1) for i in range(n)]):
+    for pi, parents in enumerate(itertools.product(*[range(i + 1) for i in range(n)])):
+        if pi % chunks != chunk:
+            continue
         for opmask in ((0, (1 << n) - 1) if n > 4 else range(1 << n)):
             for mask in range(1, 1 << n):
                 x = ir.Value(name="x")
@@ -3780,7 +3803,7 @@ def cserounds_exhaustive(part: Part, n: int) -> None:
                               {"cserounds": n, "parents": list(parents), "ops": opmask, "outputs": mask})
                     return
     part.count(f"cserounds:n={n}:max-modifying-rounds={worst}")
-    part.case(["cserounds", n], True, None, cserounds=f"n={n}:max={worst}")
+    part.case(["cserounds", n, chunk], True, None, cserounds=f"n={n}:max={worst}")
 
 
 # =========================================================================== workers / run
@@ -3999,6 +4022,8 @@ def _compare(ctx: Ctx, req: dict, obs: dict, info: dict, out: dict) -> None:
             ctx.disagree(f"kpass {info['pass']}: the world after the kernel program differs from the real objects after the pass in {what}", info, _short_json(out.get("d", {}).get(what)), _short_json(obs["d"].get(what)))
         if "flag" in obs and not obs["raised"] and not out.get("raised") and out.get("flag") != obs["flag"]:
             ctx.disagree(f"kpass {info['pass']}: the kernel program's modified flag differs from the real pass's", info, out.get("flag"), obs["flag"])
+        if out.get("flag") is False and not out.get("raised") and (out.get("calls") or any(out.get("d", {}).get(k) for k in out.get("d", {}))):
+            ctx.disagree("kpass: the kernel program returns modified=False after issuing calls / changing the world (C14_flag_kernel says it cannot)", info, {k: out.get(k) for k in ("flag", "calls")}, None)
         if not out.get("replay_same") or not out.get("late"):
             ctx.disagree("kpass: the program's world is not the replay of its calls / a late check failed (C14_wf_* say it cannot)", info, {k: out.get(k) for k in ("replay_same", "late")}, None)
         ctx.count(f"kpass:{info['pass']}:calls={min(out.get('calls', 0), 6)}")
@@ -4126,7 +4151,7 @@ def run(ctx: Ctx) -> None:
     # I (wave 5): CSE / LiftConstants / LiftSubgraphInitializers / Deduplicate(Hashed) as kernel programs
     jobs += [("kpass2", c) for c in _chunks([rng.randrange(10**9) for _ in range(ctx.pick(900, 9000))], 16)]
     jobs += [("adddef", c) for c in _chunks([rng.randrange(10**9) for _ in range(ctx.pick(600, 6000))], 16)]
-    jobs += [("cserounds", [n]) for n in range(1, ctx.pick(5, 6) + 1)]
+    jobs += [("cserounds", [(n, c, 8 if n >= 6 else 1)]) for n in range(1, ctx.pick(5, 6) + 1) for c in range(8 if n >= 6 else 1)]
     ctx.exhaustive_scopes.append(
         f"CSE linear round bound (conjecture, not a theorem): every ordered forest of <= {ctx.pick(5, 6)} one-output Identity/Relu nodes "
         "(all op assignments up to 4 nodes, all-Identity and all-Relu above) x every non-empty set of graph outputs: modifying rounds <= nodes - 1")
